@@ -108,11 +108,11 @@ theorem C07_scope_python_module (s : St) (fr : FuncRec) (n : Name) (hmod : fr.le
     specLookup, visible, List.map_nil, Scope.get?_append, firstSome_cons, firstSome]
   cases s.globals.get? n <;> cases s.builtins.get? n <;> rfl
 
-/-- **C07_scope_order (= Python's scoping, closures and class bodies).** A callable decorated at its def point
+/-- **C07_scope_order (= Python's scoping, closures and class bodies; partial: the proviso).** A callable decorated at its def point
     (`lex` = the running activations) directly inside a function or class body: the forward scope binds what
     Python sees — locals of the directly enclosing scope over globals over builtins — PROVIDED the name is not
     bound in a farther enclosing FUNCTION (only the directly enclosing scope's locals are consulted). -/
-theorem C07_scope_python_nested (s : St) (fr : FuncRec) (a : Nat) (rest : List Nat) (fa : Frame) (n : Name)
+theorem C07_scope_python_nested_partial (s : St) (fr : FuncRec) (a : Nat) (rest : List Nat) (fa : Frame) (n : Name)
     (hlex : fr.lex = a :: rest) (hrun : s.stack = fr.lex) (ha : s.act? a = some fa)
     (houter : ∀ b ∈ rest, s.isClsAct b = false → (s.localsOf b).get? n = none) :
     (fwLayers s fr []).get? n = specLookup s fr.lex n := by
@@ -138,20 +138,20 @@ theorem C07_scope_python_nested (s : St) (fr : FuncRec) (a : Nat) (rest : List N
 /-- the proviso is needed: a name bound in the function around the directly enclosing function (and at module
     level) is taken from the module — Python takes the enclosing function's. History: `T = <1>` at module level;
     `def outer(): T = <2>; def mid(): @beartype def f(x: 'T')`; call. (finding `bound-instead-of-bound:bare:H+V`) -/
-theorem C07_scope_outer_function_counterexample :
+theorem C07_scope_python_nested_counterexample :
     lastTags (run (St.init [] []) [.bindV "T" (.obj 1), .enter false 10 "outer", .bindV "T" (.obj 2),
       .enter false 11 "mid", .def_ 1 "f" (.quoted (.name "T")), .decorate 1 [], .call 1]).2
       = some ((0, 1), (0, 2)) := by decide
 
 /-! ## 3. the proxy state machine -/
 
-/-- **C07_unresolved_raises_then_recovers.** A proxy for the bare name `n`, not yet resolved, whose name is bound
+/-- **C07_unresolved_raises_then_recovers (partial: frameless proxy, or parent still running).** A proxy for the bare name `n`, not yet resolved, whose name is bound
     neither at module level nor (for a proxy of a nested callable) in the locals of its running parent:
     (1) resolving it raises the forward-reference error and leaves the cache exactly as it was — nothing about the
         failure is remembered;
     (2) once `n` is bound at module level the SAME proxy resolves to that object and the success is remembered;
     (3) from then on the remembered referent is returned whatever the state. -/
-theorem C07_unresolved_raises_then_recovers (s : St) (p : Proxy) (n : Name) (v : H)
+theorem C07_unresolved_raises_then_recovers_partial (s : St) (p : Proxy) (n : Name) (v : H)
     (hpath : p.path = [n]) (hmiss : cacheGet? s.cache p = none)
     (hg : s.globals.get? n = none) (hb : s.builtins.get? n = none)
     (hframe : p.frame = none ∨
@@ -180,7 +180,7 @@ theorem C07_unresolved_history (s : St) (f : Nat) (fr : FuncRec) (p : Proxy) (n 
     (hg : s.globals.get? n = none) (hb : s.builtins.get? n = none) (hframe : p.frame = none) :
     run s (List.replicate k (.call f)) = (s, List.replicate k (.called (.unres [n]) (specNow s fr))) ∧
     (step (s.bind n v) (.call f)).2 = .called (viaProxy v) (specNow (s.bind n v) fr) := by
-  have h3 := C07_unresolved_raises_then_recovers s p n v hpath hmiss hg hb (Or.inl hframe)
+  have h3 := C07_unresolved_raises_then_recovers_partial s p n v hpath hmiss hg hb (Or.inl hframe)
   have hcall : step s (.call f) = (s, .called (.unres [n]) (specNow s fr)) := by
     simp only [step, hf, hh, force, h3.1, hpath]
   constructor
@@ -198,7 +198,7 @@ theorem C07_unresolved_history (s : St) (f : Nat) (fr : FuncRec) (p : Proxy) (n 
     looked at. History: `def outer(): @beartype def f(x: 'T')`; `outer()` returns; call; `T = <7>`; call:
     both calls check the fake, the specification says raise / `<7>`. (findings `fake-instead-of-unres`,
     `fake-instead-of-bound`) -/
-theorem C07_unresolved_raises_counterexample :
+theorem C07_unresolved_raises_then_recovers_counterexample :
     let outs := (run (St.init [] []) [.enter false 10 "outer", .def_ 1 "f" (.quoted (.name "T")), .decorate 1 [],
       .leave 0, .call 1, .bindV "T" (.obj 7), .call 1]).2
     tagsAt outs 4 = some ((2, 0), (3, 0)) ∧ tagsAt outs 6 = some ((2, 0), (0, 7)) := by decide
@@ -220,7 +220,7 @@ theorem C07_late_local (s : St) (p : Proxy) (n : Name) (v : H) (c : Nat) (fr : F
 
 /-! ## 4. define after the decoration = define before it -/
 
-/-- **C07_late.** A callable defined at module level whose annotation is the string `'e'` (literal or postponed),
+/-- **C07_late (partial: module level, up to the proxy marker).** A callable defined at module level whose annotation is the string `'e'` (literal or postponed),
     decorated in state `s0` where some names of `e` were not yet bound (they became proxies). In ANY later state
     `s` — after any history that rebinds nothing (`hkeep`), only adds heap entries, and in which the cache holds
     only what a fresh resolution would answer — in which every name of `e` is bound at module level: a call
@@ -228,7 +228,7 @@ theorem C07_late_local (s : St) (p : Proxy) (n : Name) (v : H) (c : Nat) (fr : F
     yields, i.e. the hint the callable would have been given had the definitions preceded the decoration
     (`C07_equiv`); and the cache stays sound. Structural induction over `e` (`late_core`); attribute access is
     on sub-expressions bound at decoration time (`lateSafe`; late dotted names: `C07_late_dotted`). -/
-theorem C07_late (s0 s : St) (fr : FuncRec) (e : HExpr) (h v : H)
+theorem C07_late_partial (s0 s : St) (fr : FuncRec) (e : HExpr) (h v : H)
     (hmod : fr.lex = []) (hplain : e.plain = true)
     (hsafe : lateSafe (fun n => (s0.modScope.get? n).isSome) e = true)
     (hdec : evalH s0.heap (fwLk s0 fr []) true e = .ok h)
@@ -249,7 +249,7 @@ theorem C07_late_class_exact (v : H) (h : v.isObj = true) : refRH (.val v) = emb
 
 /-- … whereas a late referent that is itself a hint (`IntList = list[int]` after the function) is checked INSIDE
     the proxy's `__instancecheck__`, by `is_bearable(obj, referent, conf=BEARTYPE_CONF_NONRANDOM)`: the marker is
-    real, so `C07_late` cannot be stated without `erase` (for `[1, 'x']` and an odd draw the evaluated form
+    real, so `C07_late_partial` cannot be stated without `erase` (for `[1, 'x']` and an odd draw the evaluated form
     rejects, the lazily resolved form accepts — the replay of finding `via-instead-of-bound`). History:
     `@beartype def f(x: 'IntList')`; `IntList = list[int]`; call. -/
 theorem C07_late_counterexample :
@@ -343,10 +343,21 @@ theorem C07_history (s : St) (f : Nat) (name : Name) (e : HExpr) (evs : List Ev)
     simp only [step, facts.1, frD]
   refine ⟨_, _, hcall, ?_⟩
   have hheap : s2.heap = s.heap := facts.2.1
-  have := C07_late s s2 frD e h v hlex hplain hsafe (hlk s frD rfl rfl hlex) inv.scopeClosed
+  have := C07_late_partial s s2 frD e h v hlex hplain hsafe (hlk s frD rfl rfl hlex) inv.scopeClosed
     (fun n w hw => facts.2.2 n w hw) (by rw [hheap]; exact fun _ _ _ h => h) inv3.heapClosed inv3.scopeClosed
     inv3.cacheOK hnow
   exact this.1
+
+/-! ## 4c. a string annotation is the expression it prints as -/
+
+/-- **C07_show_parse.** The text of an annotation denotes the annotation: parsing the printed form of any
+    expression (every subscription having an argument) gives the expression back, with any sufficiently large
+    recursion budget. Hence "the string `show e` resolved by the decorator" in `C07_equiv` is `H.str e`. -/
+theorem C07_show_parse (e : HExpr) (hw : e.wf = true) : ∃ f0, ∀ f, f0 ≤ f → pExpr f (showE e) = some (e, []) := by
+  obtain ⟨f0, h0⟩ := exprOK e hw [] (e, []) 1 rfl (pOrs_stop e [] rfl)
+  simp only [List.append_nil] at h0
+  exact ⟨f0, fun f hf => monoE hf h0⟩
+
 
 /-! ## 5. non-vacuity: the hypotheses are satisfiable by concrete, non-trivial states -/
 
@@ -366,16 +377,16 @@ example : decorVal exS { exF with hint0 := .str exE } [] =
     rcases hn with (rfl | rfl) | rfl <;> rfl
   · rfl
 
-/-- `C07_unresolved_raises_then_recovers` applies: `@beartype def f(x: 'Later')` at module level before `Later`. -/
+/-- `C07_unresolved_raises_then_recovers_partial` applies: `@beartype def f(x: 'Later')` at module level before `Later`. -/
 example :
     let p : Proxy := { owner := 1, path := ["Later"], frame := none }
     resolveProxy exS p = (.error (.fwdref ["Later"]), []) ∧
     resolveProxy { exS with globals := ("Later", .obj 7) :: exS.globals } p = (.ok (.val (.obj 7)), [(p, .val (.obj 7))]) := by
   intro p
-  have h := C07_unresolved_raises_then_recovers exS p "Later" (.obj 7) rfl rfl (by decide) (by decide) (Or.inl rfl)
+  have h := C07_unresolved_raises_then_recovers_partial exS p "Later" (.obj 7) rfl rfl (by decide) (by decide) (Or.inl rfl)
   exact ⟨h.1, h.2.1⟩
 
-/-- `C07_late` applies: `@beartype def f(x: 'list[Later] | int')`, then `class Later`, then a call. -/
+/-- `C07_late_partial` applies: `@beartype def f(x: 'list[Later] | int')`, then `class Later`, then a call. -/
 example :
     let e : HExpr := .bor (.sub (.name "list") [.name "Later"]) (.name "int")
     let s : St := { exS with globals := ("Later", .obj 7) :: exS.globals }
@@ -387,7 +398,7 @@ example :
     rcases hsc with rfl | rfl <;>
       simp only [s, exS, St.modScope, St.init, List.cons_append, List.nil_append, Scope.get?] at hw <;>
       (repeat (split at hw; (· cases hw; rfl))) <;> cases hw
-  have := C07_late exS s exF e h (.bor (.sub (.obj 6) [.obj 7]) (.obj 1)) rfl (by decide) (by decide) hdec
+  have := C07_late_partial exS s exF e h (.bor (.sub (.obj 6) [.obj 7]) (.obj 1)) rfl (by decide) (by decide) hdec
     (hcl _ (Or.inr rfl))
     (by
       intro n w hw
@@ -400,13 +411,13 @@ example :
   exact this.1
 
 /-- a closure whose parent is running: `def outer(): K = <9>; @beartype def f(x: 'K')` — the forward scope and
-    Python agree on `K` (`C07_scope_python_nested` applies, the proviso is vacuous) -/
+    Python agree on `K` (`C07_scope_python_nested_partial` applies, the proviso is vacuous) -/
 example :
     let s : St := { St.init [] [] with acts := [{ aid := 0, isCls := false, code := 10, name := "outer", locals := [("K", .obj 9)] }], stack := [0] }
     let fr : FuncRec := { exF with lex := [0] }
     (fwLayers s fr []).get? "K" = specLookup s fr.lex "K" := by
   intro s fr
-  exact C07_scope_python_nested s fr 0 [] _ "K" rfl rfl rfl (by intro b hb; cases hb)
+  exact C07_scope_python_nested_partial s fr 0 [] _ "K" rfl rfl rfl (by intro b hb; cases hb)
 
 /-- `C07_history` applies to the program `@beartype def f(x: 'list[Later] | int')`; `f(..)` (raises); `class Later`;
     `@beartype def g(x: 'Later')`; `g(..)`; `f(..)`: after this history a call of `f` checks `list[<Later>] | int`. -/
